@@ -182,6 +182,17 @@ func protocolFacts(c *factsCtx) (pf protoFacts) {
 						}
 					}
 				}
+				if vs, ok := n.(*ast.ValueSpec); ok && len(vs.Names) == len(vs.Values) {
+					for i, id := range vs.Names {
+						if strings.Contains(strings.ToLower(id.Name), "locator") {
+							if se, ok := vs.Values[i].(*ast.SelectorExpr); ok && se.Sel.Name == "locator" {
+								defs++
+							} else {
+								bad++
+							}
+						}
+					}
+				}
 				return true
 			})
 			pf.SubSharesLocator = defs > 0 && bad == 0
